@@ -281,9 +281,13 @@ class UserDescription(Descriptor):
     def from_value(characteristic, handle, value):
         """Create CUD descriptor from value
         """
-        return UserDescription(
-             handle, description=value.decode('utf-8'), characteristic=characteristic
+        desc = UserDescription(
+             handle, description=value.decode('utf-8', errors='replace'),
+             characteristic=characteristic
         )
+        # Keep the attribute value as received (it may not be valid UTF-8)
+        desc.value = value
+        return desc
 
     @classmethod
     def _build(cls, instance: 'UserDescription'):
